@@ -270,6 +270,7 @@ class Engine:
         return self.hread(f"set.has.{T.sort_name(ety)}", ref, z3.ArraySort(T.sort_of(ety), z3.BoolSort()), st)
 
     def set_write(self, ref, ety, arr):
+        arr = self.B.name_array(arr)
         self.hwrite(f"set.has.{T.sort_name(ety)}", ref, arr, z3.ArraySort(T.sort_of(ety), z3.BoolSort()))
 
     def dict_has(self, ref, kty, st=None):
@@ -369,8 +370,8 @@ class Engine:
         if k == "tuple":
             return z3.BoolVal(len(v.t) > 0)
         if k == "set":
-            e = fresh("wit", T.sort_of(t.args[0]))
-            raise Unsupported("truthiness of a set")
+            x = z3.Const("x!tr", T.sort_of(t.args[0]))
+            return z3.Exists([x], z3.Select(self.set_arr(v.t, t.args[0]), x))
         if k == "ref":
             ci_truthy = None
             for c in self.classes.mro(t.cls):
@@ -748,6 +749,13 @@ class Engine:
             preds = getattr(self.c, "preds", None) or {}
             if a in preds:
                 return self.state_pred(a, preds[a], n, line)
+            ufs = getattr(self.c, "ufuns", None) or {}
+            if a in ufs:
+                doms, rng = ufs[a]
+                args = [self.ev(x) for x in n.args]
+                rty = ty(rng)
+                f = z3.Function("uf_" + a, *[T.sort_of(ty(d)) for d in doms], T.sort_of(rty))
+                return SV(rty, f(*[self.coerce(x, ty(d)).t for x, d in zip(args, doms)]))
             return self.B.call_builtin(a, n, line)
         if kind == "value":
             fv = self.ev(ast.Name(id=a, ctx=ast.Load(), lineno=line, col_offset=0))
@@ -1345,6 +1353,17 @@ class Engine:
         for nme in sorted(modnames):
             if nme in st.env:
                 st.env[nme] = self.fresh_sv(st.env[nme].ty, nme)
+        if effects != "ALL" and alloc:
+            # objects allocated inside the loop: container maps (and the class tag) are written for them;
+            # field maps of fresh objects are written only through attribute stores / constructor contracts,
+            # which the effect scan has recorded.  A map that nothing in the body writes is left alone.
+            kinds = getattr(self, "_alloc_kinds", set()) or {"list.", "set.", "dict."}
+            if self._has_display(body):
+                kinds = set(kinds) | {"list."}
+            for key in list(st.heap):
+                if key.startswith(tuple(kinds)) or key == "tag":
+                    if key not in effects:
+                        effects[key] = []
         if effects == "ALL":
             for k in list(st.heap):
                 a = st.heap[k]
@@ -1368,16 +1387,16 @@ class Engine:
         if alloc or effects == "ALL":
             st.alloc = fresh("loop_alloc", z3.IntSort())
             self.assume(st.alloc >= entry_alloc)
-            if effects != "ALL":
-                # objects allocated inside the loop: every map may differ there
-                for key in list(st.heap):
-                    if key in effects:
-                        continue
-                    a = st.heap[key]
-                    fr = fresh("loopnew_" + key, a.sort())
-                    self.heap_array_facts(key, fr, st)
-                    r = z3.Int("r!hv")
-                    st.heap[key] = self.B.name_array(z3.Lambda([r], z3.If(r >= entry_alloc, z3.Select(fr, r), z3.Select(a, r))))
+
+    def _has_display(self, body):
+        for n in ast.walk(ast.Module(body=list(body), type_ignores=[])):
+            if isinstance(n, (ast.List, ast.ListComp, ast.GeneratorExp)):
+                return True
+            if isinstance(n, ast.Subscript) and isinstance(n.slice, ast.Slice):
+                return True
+            if isinstance(n, ast.BinOp) and isinstance(n.op, ast.Add):
+                return True   # (list concatenation allocates)
+        return False
 
     LIST_MUT = {"append", "extend", "pop", "reverse", "insert", "remove", "sort", "clear"}
     SET_MUT = {"add", "discard", "remove", "update", "clear", "pop"}
@@ -1386,6 +1405,7 @@ class Engine:
         """(effects, allocates): effects is 'ALL' or dict heap-key -> list of refs | None (= all refs)."""
         eff = {}
         alloc = False
+        kinds = self._alloc_kinds = set()
 
         def add(key, ref):
             if ref is None:
@@ -1411,17 +1431,33 @@ class Engine:
                 self.st, self.spec_mode = saved
 
         def static_type(expr):
-            """type of expr even if it depends on loop variables: evaluate in a copy of the state"""
+            """type of expr even if it depends on loop variables: evaluate in a copy of the state in which
+            locals that are not bound yet get (unknown) values of their declared sidecar types"""
             saved = (self.st, self.spec_mode, self.fail_conds)
             self.spec_mode += 1
             tmp = st.copy()
             self.st = tmp
             try:
+                for nm, t_ in self.c.locals.items():
+                    if nm not in tmp.env:
+                        tmp.env[nm] = self.fresh_sv(t_, nm)
                 return self.ev(expr)
             except Exception:
                 return None
             finally:
                 self.st, self.spec_mode, self.fail_conds = saved
+
+        def ctor_fields(cls, cal):
+            """a constructor under contract writes the listed fields of the FRESH object only"""
+            clss = self.classes.mro(cls) + self.classes.subclasses(cls)
+            for m_ in (cal.modifies if cal is not None else ["self.*"]):
+                fld = m_.strip().split(".", 1)[1]
+                for cl in clss:
+                    for fn_, ft_ in self.classes.get(cl).fields.items():
+                        if fld == "*" or fn_ == fld:
+                            for key_ in (f"{cl}.{fn_}", f"{cl}.{fn_}#none"):
+                                if eff.get(key_, []) is not None:
+                                    eff.setdefault(key_, [])
 
         def list_keys(v):
             ety = v.ty.args[0]
@@ -1460,6 +1496,7 @@ class Engine:
                     if isinstance(f, ast.Name):
                         if f.id in ("list", "set", "sorted", "reversed", "dict"):
                             alloc = True
+                            kinds.add({"set": "set.", "dict": "dict."}.get(f.id, "list."))
                             continue
                         if f.id in self.c.callees:
                             callee = self.reg.get(self.c.callees[f.id])
@@ -1472,6 +1509,7 @@ class Engine:
                             cal = self.reg.get(q)
                             if cal is not None and any(not m.strip().startswith("self.") for m in cal.modifies):
                                 return "ALL", True
+                            ctor_fields(f.id, cal)
                             continue
                         if f.id in self.st.env or f.id in self.c.opaque:
                             spec = self.c.opaque.get(f.id, {})
@@ -1486,6 +1524,7 @@ class Engine:
                             cal = self.reg.get(q)
                             if cal is None or any(not m.strip().startswith("self.") for m in cal.modifies):
                                 return "ALL", True
+                            ctor_fields(self.c.owner_class, cal)
                             continue
                         bv = base_value(f.value)
                         tv = bv if bv not in (None, "dep") else static_type(f.value)
@@ -1502,15 +1541,18 @@ class Engine:
                                 add(f"set.has.{T.sort_name(t.args[0])}", None if bv == "dep" else bv.t)
                             else:
                                 alloc = True
+                                kinds.add("set.")
                             continue
                         if t.kind == "dict":
                             if f.attr in ("setdefault", "update", "pop", "popitem", "clear"):
                                 return "ALL", True
                             alloc = True
+                            kinds.update(("set.", "list."))
                             continue
                         if t.kind == "str":
                             if f.attr in ("splitlines", "split"):
                                 alloc = True   # returns a fresh list
+                                kinds.add("list.")
                             continue           # strings are values: no heap effect
                         if t.kind == "ref":
                             q = None
